@@ -377,9 +377,10 @@ namespace sim
     const std::string wb = "/simfs/model.wb", dat = "/simfs/points.dat";
     s.files[wb] = w.content;
     const int dim = (w.has_cs && want2) ? 2 : 3;
-    const bool convert = dim == 3 && w.spherical && rng.chance(0.5);
+    // the option converts the rows whatever the coordinate system of the world is
+    const bool convert = dim == 3 && rng.chance(w.spherical ? 0.5 : 0.12);
     const int compositions = static_cast<int>(rng.below(rng.chance(0.8) ? 4 : 10));
-    const int gcomp = rng.chance(0.35) ? static_cast<int>(rng.range(1, 3)) : 0;
+    const int gcomp = rng.chance(0.35) ? static_cast<int>(rng.chance(0.3) ? rng.range(3, 5) : rng.range(1, 3)) : 0;
     const int ngrains = gcomp ? static_cast<int>(rng.range(0, 4)) : (rng.chance(0.1) ? 2 : 0);
     const bool comma = rng.chance(0.3);
     const int malformed_mode = rng.chance(0.12) ? static_cast<int>(rng.range(1, 6)) : 0;
